@@ -323,6 +323,23 @@ Definition l_clear_cands (gs : grouping) (st : lstate) : lstate :=
 Definition l_clear_subs (gs : grouping) (st : lstate) : lstate :=
   l_recreate gs (mkLS (l_protos st) (l_cands st) [] (l_regions st) (l_pparent st) (l_aparent st) (l_cdsreg st) (l_next st)).
 
+(* strip_antismash_annotations: clear_protoclusters(); clear_candidate_clusters(); clear_subregions(); clear_regions().
+   Each of the first three re-creates the regions when the record has some at that moment; `gl` lists what the
+   create_regions calls made during the operation grouped, in call order: one is consumed per re-creation *)
+Definition pop_grouping (st : lstate) (gl : list grouping) : grouping * list grouping :=
+  match l_regions st with
+  | [] => ([], gl)
+  | _ => match gl with g :: r => (g, r) | [] => ([], []) end
+  end.
+Definition l_no_protos (st : lstate) : lstate :=
+  mkLS [] (l_cands st) (l_subs st) (l_regions st) (l_pparent st) (l_aparent st) (l_cdsreg st) (l_next st).
+Definition l_strip (gl : list grouping) (st : lstate) : lstate :=
+  let st0 := l_no_protos st in
+  let '(g1, gl1) := pop_grouping st0 gl in let st1 := l_clear_cands g1 st0 in
+  let '(g2, gl2) := pop_grouping st1 gl1 in let st2 := l_clear_cands g2 st1 in
+  let '(g3, _) := pop_grouping st2 gl2 in let st3 := l_clear_subs g3 st2 in
+  l_clear_regions st3.
+
 Inductive lop :=
 | LAddProto (p : Z)
 | LAddCand (c : Z) (children : list Z)       (* CandidateCluster(..., children) followed by add_candidate_cluster *)
@@ -331,7 +348,10 @@ Inductive lop :=
 | LClearRegions
 | LClearCands (gs : grouping)
 | LClearSubs (gs : grouping)
-| LClearProtos (gs : grouping).
+| LClearProtos (gs : grouping)
+| LReAddCand (c : Z) (children : list Z)     (* add_candidate_cluster of a candidate built earlier: no constructor runs,
+                                                the protoclusters' parents stay as they are *)
+| LStrip (gl : list grouping).
 
 Definition l_apply (st : lstate) (o : lop) : lstate :=
   match o with
@@ -345,6 +365,9 @@ Definition l_apply (st : lstate) (o : lop) : lstate :=
   | LClearSubs gs => l_clear_subs gs st
   | LClearProtos gs =>
     l_clear_cands gs (mkLS [] (l_cands st) (l_subs st) (l_regions st) (l_pparent st) (l_aparent st) (l_cdsreg st) (l_next st))
+  | LReAddCand c ch => mkLS (l_protos st) ((c, ch) :: l_cands st) (l_subs st) (l_regions st)
+                            (l_pparent st) (l_aparent st) (l_cdsreg st) (l_next st)
+  | LStrip gl => l_strip gl st
   end.
 
 Definition dGrouping : dec grouping := dList (dPair (dList dZ) (dList dZ)).
@@ -358,6 +381,8 @@ Definition dLop : dec lop := fun l =>
   | 5 :: r => match dGrouping r with Some (g, r') => Some (LClearCands g, r') | None => None end
   | 6 :: r => match dGrouping r with Some (g, r') => Some (LClearSubs g, r') | None => None end
   | 7 :: r => match dGrouping r with Some (g, r') => Some (LClearProtos g, r') | None => None end
+  | 8 :: c :: r => match dList dZ r with Some (ch, r') => Some (LReAddCand c ch, r') | None => None end
+  | 9 :: r => match dList dGrouping r with Some (gl, r') => Some (LStrip gl, r') | None => None end
   | _ => None
   end.
 
@@ -376,6 +401,36 @@ Definition cand_name (st : lstate) (link : option Z) : Z :=
   | None => -1
   | Some c => if existsb (fun x => fst x =? c) (l_cands st) then c else -2
   end.
+
+(* ====================================================================================
+   A gene added AFTER the regions (function id 6): Record._link_cds_to_parent looks for the gene's region in a
+   bisected window of the region list,
+       left = bisect.bisect_left(self._regions, cds)            # region < cds: CDSCollection.__lt__
+       right = bisect.bisect_right(self._regions, cds, lo=left) # cds < region: Feature.__lt__
+       for region in self._regions[max(0, left - 1):right + 1]:
+           if cds.is_contained_by(region): region.add_cds(cds); cds.region = region
+   (the gene is not yet a child of any region, so the `other in self` shortcut of CDSCollection.__lt__ is False).
+   link_hits: the positions (in the region list) of the regions that take the gene, in loop order; cds.region is
+   the last of them.
+   ==================================================================================== *)
+(* Feature.__lt__: (start, length), the start of an origin-bridging location as in kstart *)
+Definition feat_lt (a b : loc) : bool :=
+  (kstart a <? kstart b) || ((kstart a =? kstart b) && (llen a <? llen b)).
+Definition bisect_from {A} (p : A -> bool) (l : list A) (lo : nat) : nat := bisect_go p l (S (length l)) lo (length l).
+Fixpoint hits_from (i : nat) (window : list loc) (g : loc) : list nat :=
+  match window with
+  | [] => []
+  | r :: t => if contains r g then i :: hits_from (S i) t g else hits_from (S i) t g
+  end.
+Definition link_window (regs : list loc) (g : loc) : nat * list loc :=
+  let left := bisect_left (fun r => coll_lt r g) regs in
+  let right := bisect_from (fun r => negb (feat_lt g r)) regs left in
+  let from := (left - 1)%nat in                (* max(0, left - 1) *)
+  (from, firstn (S right - from) (skipn from regs)).
+Definition link_hits (regs : list loc) (g : loc) : list nat :=
+  let '(from, window) := link_window regs g in hits_from from window g.
+Definition link_region (regs : list loc) (g : loc) : option nat :=
+  match rev (link_hits regs g) with i :: _ => Some i | [] => None end.
 
 Definition run_C06 (fn : Z) (l : list Z) : list Z :=
   match fn with
@@ -403,6 +458,11 @@ Definition run_C06 (fn : Z) (l : list Z) : list Z :=
            map (fun p => cand_name st (lget p (l_pparent st))) protos
            ++ map (fun a => region_name st (lget a (l_aparent st))) areas
            ++ map (fun g => region_name st (lget g (l_cdsreg st))) genes
+         | _ => bad_input end
+  | 6 => match dPair (dList dLoc) dLoc l with
+         | Some ((regs, g), []) =>
+           eList (fun i => [Z.of_nat i]) (link_hits regs g)
+           ++ [match link_region regs g with Some i => Z.of_nat i | None => -1 end]
          | _ => bad_input end
   | _ => bad_input
   end.
